@@ -47,6 +47,7 @@ inductive Outcome where
 
 def codeKeyError : Nat := 1      -- `futs.pop(key)` failed
 def codeMissing : Nat := 2       -- `ValueError("Missing result for …")`
+def codeTypeError : Nat := 3     -- `fut.set_exception(StopIteration())` raised `TypeError`: fails every unanswered future
 
 abbrev Script := List (Nat × Act)     -- (delay before the action, action)
 
@@ -72,7 +73,7 @@ structure Asm where
   deriving Repr
 
 structure Plan where
-  per : List (List Nat)          -- per key: kind of the n-th occurrence (mod length): 0 value, 1 Exception value, 2 omitted, 3 yielded twice, 4 unknown key
+  per : List (List Nat)          -- per key: kind of the n-th occurrence (mod length): 0 value, 1 Exception value, 2 omitted, 3 yielded twice, 4 unknown key, 5 a StopIteration instance
   order : Nat                    -- 0 forward, 1 reverse, 2 rotated by the batch index
   raiseAt : List Nat             -- per batch index (mod length): position at which the function raises; ≥ 90 = never
   idelay : Nat
@@ -140,6 +141,7 @@ def behaviourGo (p : Plan) (b : Nat) (ra : Nat) :
         | 1 => [(p.idelay, .yield k (.err (2000 + 100 * k + b)))]
         | 2 => []
         | 3 => [(p.idelay, .yield k (.val k a b)), (p.idelay, .yield k (.val 999 0 0))]
+        | 5 => [(p.idelay, .raise codeTypeError)]     -- yields a `StopIteration` instance: `set_exception` refuses it
         | _ => [(p.idelay, .yield 99 (.val 0 0 0))]
       let (more, seen'') := behaviourGo p b ra rest (j + 1) seen'
       (here ++ more, seen'')
